@@ -421,6 +421,48 @@ def unsigned_slots_rule(prog, rep, rid, samples):
                     f"intersection has elements_added == -1 and bytes() of it raises)", e0.where())
 
 
+def cuckoo_error_rate_after_load(prog, rep, wctx):
+    """the error rate a reloaded cuckoo filter reports, when the caller re-supplies none, is the one its own geometry gives: the value
+    left in _error_rate is _calc_error_rate()'s formula over the fingerprint size and bucket size the loaded object ENDS UP with (the
+    bucket size comes from the file; a rate computed before the load, for the constructor's default bucket size, is stale)"""
+    from ..expr import mapx
+    rid = "C05.derived-geometry"
+    K = prog.cls(wctx)
+    ce = K.find_method("_calc_error_rate")
+    if ce is None:
+        raise AnalysisError(f"anchor vanished: {wctx}._calc_error_rate")
+    forms = {canon(strip_epochs(p.exit[1])) for p in paths(prog, wctx, ce, inline="deep") if p.exit[0] == "return"}
+    if len(forms) != 1:
+        return
+    formula = next(iter(forms))
+    for rn in ("frombytes", "__init__"):
+        f, ps = reader_paths(prog, wctx, rn)
+        bad = None
+        n = 0
+        for p in ps:
+            obj = loaded_obj(f, p)
+            if not any(nn[0] in ("unp", "unpall", "iterunp") for (b, _), v in p.fields.items() if b == obj for nn in walk(v)):
+                continue  # not a loading path
+            er = p.fields.get((obj, "_error_rate"))
+            if er is None:
+                continue
+            er = strip_epochs(er)
+            if any(nn == ("p", "error_rate") for nn in walk(er)):
+                continue  # re-supplied by the caller (judged by C05.resupplied-error-rate / C07)
+            n += 1
+            fin = {k[1]: strip_epochs(v) for k, v in p.fields.items() if k[0] == obj}
+            want = mapx(formula, lambda nn: fin.get(nn[2]) if (nn[0] == "f" and nn[1] == SELF and nn[2] in fin) else None)
+            if canon(norm(er)) != canon(norm(want)):
+                bad = bad or (er, want)
+        if bad:
+            rep.bad(rid, f"{wctx}.{rn}", "_error_rate not the rate of the loaded geometry",
+                    f"{rn} leaves error_rate = {nshow(bad[0])}, computed before the table was loaded, while the loaded bucket size / fingerprint size give "
+                    f"{nshow(bad[1])}: a filter with a bucket size other than the constructor's default reports another error rate after frombytes() than the original "
+                    "and than the same payload loaded by path (bucket_size 2: 1.86e-9 against 9.31e-10)", f.where())
+        elif n:
+            rep.ok(rid, f"{wctx}.{rn}: the reported error rate is that of the loaded geometry")
+
+
 def derived_on_load_rule(prog, rep, rid):
     """every class whose constructor can load a file: a field that ends up computed from the arguments on the paths that build from
     parameters (a remembered derived quantity: positions, sizes, rates) must not end up as a bare constant on a path that loads - the
@@ -712,6 +754,7 @@ def check(prog, rep, tier):
         samples[wctx] = {"format": wfmt, "slots": wslots}
         # the file-path channel is the constructor: what it does AFTER loading must not undo what was restored
         check_footer(prog, rep, "cuckoo", wctx, wfmt, wslots, wctx, "__init__", loading_only=True)
+        cuckoo_error_rate_after_load(prog, rep, wctx)
         for rn in ("_load", "frombytes"):
             check_footer(prog, rep, "cuckoo", wctx, wfmt, wslots, wctx, rn)
             f, ps = reader_paths(prog, wctx, rn)
@@ -926,6 +969,11 @@ MUTANTS = [
            insert_stmt("BloomFilter", "clear", "self._est_elements = self.estimate_elements()", at_end=True), rule="C05.unsigned"),
     Mutant("the estimate is clamped at 0 before it becomes the element count (no negative reaches the slot)", _B,
            insert_stmt("BloomFilter", "clear", "self._els_added = max(self.estimate_elements(), 0)", at_end=True), expect="silent"),
+    Mutant("cuckoo constructor computes the error rate before it loads the file (stale for another bucket size)", _CK, seq(
+        del_stmt("CuckooFilter", "__init__", "self._error_rate = float(self._calc_error_rate())"),
+        insert_stmt("CuckooFilter", "__init__", "self._error_rate = float(self._calc_error_rate())", before="if filepath is None")), rule="C05.derived-geometry"),
+    Mutant("D19 repaired: frombytes recomputes the error rate after the load (the open finding disappears, nothing new appears)", _CK,
+           insert_stmt("CuckooFilter", "frombytes", "cku._error_rate = cku._calc_error_rate()", before="cku._set_error_rate(error_rate)"), expect="silent"),
     Mutant("expanding __load forgets the total", _E, del_stmt("ExpandingBloomFilter", "__load", "self._added_elements = els_added"), rule="C05.slot"),
     Mutant("expanding frombytes forgets the total", _E, del_stmt("ExpandingBloomFilter", "frombytes", "blm._added_elements = added_els"), rule="C05.slot"),
     Mutant("CountMinSketch.__bytes__ with its own body", _CM, replace_stmt("CountMinSketch", "__bytes__", "with BytesIO() as f", "return self._bins.tobytes()"), rule="C05.one-body"),
